@@ -2020,11 +2020,25 @@ def case_tp_poisson(cuqi, q, dim, ogm, x, field=None):
     # oracle: residual of the problem's own assembled system, observation by restriction / own quadratic spline
     fail = None
     try:
-        sol = REAL_SOLVE(np.asarray(A, float), np.asarray(b, float))
-        gs, go = np.asarray(pde.grid_sol), np.asarray(pde.grid_obs)
+        # the documented discretisation, rebuilt here (nothing read back from the problem object)
+        N = dim - 1
+        dxp = 1.0 / N
+        Dx = -np.diag(np.ones(N), 0) + np.diag(np.ones(N - 1), 1)
+        e0 = np.zeros(N)
+        e0[0] = 1
+        Dx = np.concatenate([e0.reshape(1, -1), Dx], axis=0) / dxp
+        src_grid = np.linspace(dxp, 1, N, endpoint=False)
+        A_ref = Dx.T @ np.diag(xf) @ Dx
+        b_ref = 10 * np.exp(-((src_grid - 0.5) ** 2) / 0.02)
+        gs = np.linspace(1.0 / (dim - 1), 1, dim - 1, endpoint=False)
+        go = gs[1:-1] if ogm else gs
+        if not (np.array_equal(np.asarray(A, float), A_ref) and np.array_equal(np.asarray(b, float), b_ref)
+                and np.array_equal(np.asarray(pde.grid_sol, float), gs) and np.array_equal(np.asarray(pde.grid_obs, float), go)):
+            fail = "Poisson1D(dim=%d): the PDE form / grids of the problem object are not its documented discretisation Dx^T diag(x) Dx u = source" % dim
+        sol = REAL_SOLVE(A_ref, b_ref)
         xi = [idx_of(v, gs) for v in go]
         E = np.array([sol[i] for i in xi]) if all(i is not None for i in xi) else spline_interp(gs, sol.reshape(-1, 1), 2, go)[:, 0]
-        if o[0] != "ok" or not arr_close(o[1], E, 1e-7):
+        if fail is None and (o[0] != "ok" or not arr_close(o[1], E, 1e-7)):
             fail = "Poisson1D(dim=%d).model.forward(%s) = %s differs from solving its own assembled system and observing it: %s" % (
                 dim, x, o[1] if o[0] == "err" else np.asarray(o[1]).tolist(), E.tolist())
     except Exception as e:
@@ -2057,14 +2071,24 @@ def case_tp_heat(cuqi, q, dim, mt, ogm, x, field=None):
     expr = "check_td_forward %s %s %s None %s %s" % (td_cfg_term(cfg, q, rec, "9", ctform(tb)), qcs(1), qcs(0), qcv(xf), cres(o, carr))
     fail = None
     try:
-        u = np.array(tb[0][3], float)
+        # the documented discretisation, rebuilt here (nothing read back from the problem object)
+        N = dim
+        dxh = 1.0 / (N + 1)
+        Dxx = (np.diag(-2 * np.ones(N)) + np.diag(np.ones(N - 1), -1) + np.diag(np.ones(N - 1), 1)) / dxh ** 2
+        t_ref = np.linspace(0, mt, int(mt / (5 / 11 * dxh ** 2)) + 1, endpoint=True)
+        gs = np.linspace(dxh, 1, N, endpoint=False)
+        go = gs[:-1] if ogm else gs
+        if not (np.array_equal(np.asarray(times), t_ref) and all(np.array_equal(e[1], Dxx) and not np.any(e[2]) and np.array_equal(e[3], xf) for e in tb)
+                and np.array_equal(np.asarray(pde.grid_sol, float), gs) and np.array_equal(np.asarray(pde.grid_obs, float), go) and pde.method == "forward_euler"):
+            fail = "Heat1D(dim=%d, max_time=%s): time steps / PDE form / grids of the problem object are not its documented discretisation" % (dim, mt)
+        u = np.array(xf, float)
         U = [u]
-        for k in range(len(times) - 1):
-            dt = times[k + 1] - times[k]
-            u = u + dt * (tb[k][1] @ u + tb[k][2])
+        for k in range(len(t_ref) - 1):
+            dt = t_ref[k + 1] - t_ref[k]
+            u = u + dt * (Dxx @ u)
             U.append(u)
         U = np.array(U).T
-        gs, go = np.asarray(pde.grid_sol), np.asarray(pde.grid_obs)
+        times = t_ref.tolist()
         xi = [idx_of(v, gs) for v in go]
         if all(i is not None for i in xi):
             E = U[xi, -1]
@@ -2075,7 +2099,7 @@ def case_tp_heat(cuqi, q, dim, mt, ogm, x, field=None):
         if E is None:
             if o[0] == "ok":
                 fail = "Heat1D forward returned a value where no interpolation exists"
-        elif o[0] != "ok" or not arr_close(o[1], E, 1e-7):
+        elif fail is None and (o[0] != "ok" or not arr_close(o[1], E, 1e-7)):
             fail = "Heat1D(dim=%d, max_time=%s).model.forward(%s) = %s differs from forward Euler on its own PDE form + final-time observation: %s" % (
                 dim, mt, x, o[1] if o[0] == "err" else np.asarray(o[1]).tolist(), E.tolist())
     except Exception as e:
